@@ -93,7 +93,7 @@ class _ProbeState(StateHook):
 def generate(ctx):
     rng = ctx.rng
     th = ctx.tier == "thorough"
-    for _ in range(9000 if th else 400):
+    for _ in range(5000 if th else 400):
         kind = rng.choice(["hook", "statehook", "statehook"])
         ops = []
         for _ in range(rng.randint(8, 40)):
@@ -119,7 +119,7 @@ def generate(ctx):
         yield {"part": "fsm", "kind": kind, "train_update": rng.random() < 0.7, "eval_update": rng.random() < 0.7,
                "pre": rng.random() < 0.5, "both": rng.random() < 0.3, "probe": rng.choice(["nn", "inferno"]),
                "start_registered": rng.random() < 0.5, "ops": ops}
-    for _ in range(6000 if th else 500):
+    for _ in range(4000 if th else 500):
         which = rng.choice(["clamp", "norm"])
         target = rng.choice(["plain", "buffer", "weight", "updater_parent_weight"])
         d = {"part": "post", "which": which, "target": target, "seed": rng.randrange(1 << 30),
